@@ -390,12 +390,12 @@ def log_needs_care(b):
     return any(c < 0x20 or c in (0x22, 0x5C) or c >= 0x7F for c in b)
 
 
-def log_validate(chk, lines, label):
+def log_validate(chk, lines, label, expand=False):
     wd = vlib.workdir("log-%s-%s" % (chk.pid, label))
     script, trace = os.path.join(wd, "script.txt"), os.path.join(wd, "trace.ndjson")
     write_lines(script, lines)
     events = run_driver("logjson", "plain", script, trace)
-    if len(events) != len(lines):
+    if (len(events) != len(lines)) if not expand else (len(events) < len(lines)):
         raise vlib.MachineryError("logjson driver produced %d events for %d commands" % (len(events), len(lines)))
     res = vlib.validate("LogJsonTrace", trace, timeout=1500)
     chk.add_traces(len(events), len(events), res, label)
@@ -433,6 +433,9 @@ def log_run(chk):
             fields[1] = (fields[0][0], fields[1][1])          # duplicate field name
         rnd.append(log_line(log_random_string(chk.rng), fields, chk.rng.choice(["info", "warning", "error"])))
     log_validate(chk, rnd, "random")
+    # several threads logging at once (records with quotes, backslashes, control bytes): what meets at the descriptor must still be one
+    # faithful line per record.  The driver expands one clog line into one event per record (+ one per stray line)
+    log_validate(chk, ["clog threads=4 count=%d" % (60 if thorough else 20), "clog threads=8 count=%d" % (40 if thorough else 8)], "concurrent", expand=True)
     chk.cov["rule"] = ("strings = every state of spec/LogJson.tla (all strings of <= 3 symbols over quote, backslash, slash, \\b \\f \\n \\r \\t, 0x01, 0x1F, "
                        "'a', 0x7F and a 2-, 3- and 4-byte UTF-8 character), each logged as event name, field name and field value, plus seeded "
                        "random valid-UTF-8 strings (all control bytes, BMP edges, astral code points) with 0-5 fields and duplicate names; "
